@@ -42,7 +42,7 @@ fn rename_states() -> Vec<State> {
                 }
                 "global-element" => {
                     s.files[0].comps.push(anon_element(name, vec![el("Inner", TypeRef::b("string"))]));
-                    holder_mut(&mut s).seq = Some(Seq::of(vec![Particle::Ref(ElemRef { target: QName::new(NS_A, name), min: 1, max: Max::N(1) })]));
+                    holder_mut(&mut s).seq = Some(Seq::of(vec![Particle::Ref(ElemRef { target: QName::new(NS_A, name), min: 1, max: Max::N(1), xmlns: vec![] })]));
                 }
                 "element" => holder_mut(&mut s).seq = Some(Seq::of(vec![el(name, TypeRef::b("string")), el("Other", TypeRef::b("int"))])),
                 _ => holder_mut(&mut s).attrs.push(Attr { name: name.clone(), ty: TypeRef::b("string"), required: true, value_constraint: None }),
@@ -218,6 +218,7 @@ pub fn check(tier: &str) -> i32 {
                             .ctx("message", &generic_msg)
                             .ctx("production", production_kind(&st.label))
                             .ctx("name.collision", if st.label.contains("name-collision") { "element-and-type-share-a-name" } else if st.label.contains("[yaserde-visitor-names]") { "sibling-elements-differ-in-case-only" } else if st.label.contains("[type-names]") { "type-names-with-one-rust-spelling" } else if st.label.contains("spelling-collision") { "distinct-xml-names-with-one-rust-spelling" } else { "none" })
+                            .ctx("documentation.position", if st.label.contains("annotation inside the sequence") { "first-child-of-sequence-or-extension" } else { "type-level" })
                             .exp("rustc accepts the emitted file")
                             .act(format!("{} | line {}: {}", d.message, d.line, d.snippet))
                             .depth(st.depth)
